@@ -69,7 +69,7 @@ def make_path_variants(root):
 
 def git_style_variants(root):
     """user-level git configuration files selecting the conflict style that `git merge-file` (the text-merge helper
-    of the 'full' PATH variant) prints: default (merge), diff3 (adds a ||||||| base section), zdiff3.
+    of the 'full' PATH variant) prints: default (merge), diff3 (adds a ||||||| base section), zdiff3, and an unparsable file (git dies).
     Returns [path, ...]; switch with os.environ['GIT_CONFIG_GLOBAL']."""
     out = ["/dev/null"]
     for style in ("diff3", "zdiff3"):
@@ -77,6 +77,12 @@ def git_style_variants(root):
         with open(p, "w") as f:
             f.write("[merge]\n\tconflictstyle = %s\n" % style)
         out.append(p)
+    # a user configuration git cannot parse: git is installed but every git command dies with status 128 and
+    # prints nothing (the helper is "available on the machine" and fails)
+    p = os.path.join(root, "gitconfig-unparsable")
+    with open(p, "w") as f:
+        f.write("[merge\n\tconflictstyle = diff3\nthis is not a config line\n")
+    out.append(p)
     return out
 
 
